@@ -100,6 +100,11 @@ func C10(cfg Cfg) int {
 			break
 		}
 		keys := rig.DetKeys(fmt.Sprintf("c10-%d", s), 4)
+		if s%2 == 1 {
+			// A key no BLS library would produce (leading zero nibbles/bytes): files may carry any key bytes.
+			keys[3] = rig.OpaqueKey(fmt.Sprintf("c10-%d", s), [][]byte{{0x00}, {0x0a}, {0x00, 0x00, 0x07}, {0x01}, {0x00, 0x30}}[(s/2)%5]...)
+			run.Distinct(fmt.Sprintf("opaque key prefix %x", keys[3].Pub[:2]))
+		}
 		mx := map[[48]byte]trip{}
 		// Prior history by real signing decisions.
 		svc, err := rig.OpenRules(base)
